@@ -29,7 +29,23 @@ FOCUS = {
     "C20": "allocation failures during connection establishment, background activity (accept, redial, receive paths of transports, websocket/http), statistics, and 'does not leave the object in a state where later calls misbehave'",
 }
 
+FOCUS4 = {
+    "C02": "closing of the underlying object (byte streams, HTTP connections and servers, websocket streams, dialers and listeners) while operations are pending, and nng_aio_free / nng_aio_wait",
+    "C10": "nng_listener_close and nng_dialer_close while connections are being established or negotiated, and 'whatever operations are pending or being issued concurrently from other threads'",
+    "C11": "tcp and socket-fd connections: 'wrong protocol ids, oversized or inconsistent length fields', and 'the process does not ... hang or spin'",
+    "C12": "'until a reply arrives, the request is cancelled or replaced, or the receive times out', with several repliers / connections to choose from",
+    "C14": "'never ADD_POST or REM_POST without ADD_PRE', 'every pipe that reached ADD_POST receives REM_POST no later than the return of its socket's close', 'a pipe closed inside ADD_PRE never carries application messages'",
+    "C15": "the send side: 'if the socket can accept (send) ... a message at that moment the call does so instead of returning NNG_EAGAIN', send poll descriptors, raw sockets",
+    "C20": "'does not ... deadlock or leak', in contexts, option calls, devices, dialers that redial, and the per-pipe setup of every protocol",
+    "C04": "the REQ side: 'replies to cancelled, superseded or unknown requests ... are discarded', several contexts sharing connections",
+    "C06": "several pullers and several pushers: 'delivered to at most one PULL peer', 'messages carried by the same connection arrive in send order'",
+    "C13": "REQ/REP devices and NNG_OPT_MAXTTL: 'a message that has already crossed more hops than the receiving socket's NNG_OPT_MAXTTL is discarded instead of delivered or forwarded'",
+    "C05": "'unsubscribing also removes already queued messages that no longer match', topics that are prefixes of one another, empty topics and empty bodies",
+    "C09": "'BUS send never blocks', 'when queues are full messages are dropped whole rather than duplicated, reordered or corrupted', several peers",
+}
 prop, tag = sys.argv[1], sys.argv[2]
+if len(sys.argv) > 3 and sys.argv[3] == "4":
+    FOCUS = FOCUS4
 text = None
 for l in open("/verif/properties.jsonl"):
     p = json.loads(l)
